@@ -29,9 +29,11 @@ CLAIMED = {
         text='Partial. Proof, for all 2^64 results std::stoul can produce (and all stoi results), that the numeric tail of the real '
              'RamUnsignedFromString / RamSignedFromString returns normally exactly when the parsed value is representable in the 32-bit column '
              'type and then returns exactly that value with the position the std function reported (+2 for a stripped 0b); and that '
-             'ReadStreamCSV::readRamUnsigned returns the value RamUnsignedFromString produced. Loop-free, full-width symbolic inputs: complete for '
-             'these functions. NOT covered: prefix/base detection, completeness check, floats, records/ADTs, error reporting, crash/hang freedom '
-             '(std::string / stream code outside CBMC\'s C++ front end).',
+             'ReadStreamCSV::readRamUnsigned returns the value RamUnsignedFromString produced; RamFloatFromString returns std::stof\'s value and never stores a finite '
+             'literal as an infinity. Loop-free, full-width symbolic inputs: complete for these functions. Plus a BOUNDED check (lines of at most 6/9 bytes, any bytes, any '
+             'delimiter, both modes) that ReadStreamCSV::nextElement never reads outside the line, terminates, and reports an error or returns a field. NOT covered: '
+             'prefix/base detection, completeness check, records/ADTs, error message text (std::string / stream code outside CBMC\'s C++ front end). '
+             'Two genuine defects found and fixed (313a66312, d90dba857).',
         note='assumed contracts of std::stoul/stoi (value of longest valid prefix or throw); opaque std::string stub; slicing of the function at the '
              '`tmp` declaration validated syntactically each run; RAM_DOMAIN_SIZE=32',
         technique='CBMC function contracts (DFCC) on mechanically sliced C++ function tails, full-domain symbolic inputs',
@@ -72,7 +74,8 @@ CLAIMED = {
              'the synthesiser really emits for that operator (emitter text compiled and executed natively each run) both equal a specification written '
              'from the property statement (wrap-around unsigned arithmetic, truncating division, masked shifts, IEEE binary32 arithmetic, C conversions, '
              '0/1 logical results, three-way NaN-aware comparisons); hence interpreter == compiled == spec. 57 functors x 2 engines, 16 constraints x 2, '
-             'n-ary MIN/MAX with a loop invariant for any arity. NOT covered: string operators (symbol table code), RANGE generators, user-defined functors.',
+             'n-ary MIN/MAX with a loop invariant for any arity; plus lemmas that the BinaryConstraintOps.h tables (strict->weak/not-equal split used by MakeIndex, '
+             'negation, direction predicates) agree with the interpreter evaluator for all operands incl. NaN and signed zeros. NOT covered: string operators (symbol table code), RANGE generators, user-defined functors.',
         note='CBMC bit-vector/IEEE-754 semantics trusted; std::pow uninterpreted; ramBitCast replaced by a union cast (R10); sub-expression evaluation '
              'abstracted to an argument array; DIV/MOD specified as C\'s truncating / and % on the 32-bit type; RAM_DOMAIN_SIZE=32',
         technique='CBMC function contracts (DFCC) on the preprocessed interpreter switch and on natively emitted synthesiser expressions; back end per obligation (minisat / z3 / kissat)',
@@ -88,14 +91,18 @@ CLAIMED = {
         technique='CBMC function contracts (DFCC, enforce + replace-call-with-contract) on extracted C++ + rely/guarantee ghost monitor + loop-invariant hooks; native exploration replay',
         design='DESIGN.md §3 C29'),
     'C17': dict(
-        text='Partial, BOUNDED (not a proof). For every symbol of at most 4 (thorough: 6) characters over all byte values except NUL/CR/LF and every single-character '
-             'delimiter, the real WriteStreamCSV::outputSymbol(column value) followed by the real ReadStreamCSV::nextElement returns the same symbol and leaves the reader '
-             'after the delimiter, for RFC 4180 quoting and for plain delimited text. NOT covered: all other attribute types, records/ADTs, headers, multi-line '
-             'fields, gzip, JSON, SQLite.',
-        note='bounded stand-in: loops unwound to the string bound with unwinding assertions; std::string/ostream replaced by a bounded scaffold; labelled bounded in evidence and never counted as proved',
+        text='Partial. (1) gzip layer: contracts on the real gzfstreambuf constructor/overflow/sync/close/underflow against a ghost model of the '
+             'compressed file (logical output = bytes handed to gzwrite ++ put area, universal ghost index): overflow(c) appends exactly c, sync/close '
+             'lose nothing, underflow returns the next stream byte without consuming it, buffer invariant kept; loop-free, all buffer states — quick tier '
+             'with the buffer constant scaled 65536->64 (labelled bounded), thorough tier with the real constant. (2) CSV symbol column, BOUNDED: for every '
+             'symbol of at most 4 (thorough 6) bytes (all values except NUL/CR/LF) and every single-character delimiter, the real WriteStreamCSV::outputSymbol '
+             'followed by the real ReadStreamCSV::nextElement returns the same symbol (RFC 4180 and plain). NOT covered: numbers/floats/records/ADTs, '
+             'headers, multi-line fields, JSON, SQLite, zlib itself.',
+        note='bounded stand-ins are labelled bounded in evidence and never counted as proved; zlib assumed faithful; std::streambuf/std::string/ostream '
+             'replaced by scaffolds; one genuine defect found and fixed (97345cb34)',
         category='other',
-        technique='CBMC function contract on the write-then-read composition of the two extracted functions, bounded unwinding (bounded stand-in)',
-        design='DESIGN.md §3 C17'),
+        technique='CBMC function contracts (DFCC) on extracted C++ with ghost file model and ghost index; bounded unwinding for the string round trip (bounded stand-in)',
+        design='DESIGN.md §3 C17, §8'),
 }
 
 NA_PENDING = 'not claimed yet: the contract unit planned in DESIGN.md §3 has not been built'
